@@ -252,6 +252,9 @@ def _pre_block(stmts, bound=frozenset()):
             s.test, s.body, s.orelse = _un_not(s.test, s.body, s.orelse)
             if not s.body:                       # `if not c: X` came out as `if c: <nothing> else: X`
                 s.test, s.body, s.orelse = ast.UnaryOp(op=ast.Not(), operand=s.test), s.orelse, []
+            # exactly the else-branch always leaves: it becomes the guard
+            if s.orelse and _terminates(s.orelse) and not _terminates(s.body):
+                s.test, s.body, s.orelse = _negate(s.test), s.orelse, s.body
             # a branch that always leaves: what follows it is the other branch
             if _terminates(s.body) and s.orelse:
                 stmts[i + 1:i + 1] = s.orelse
@@ -588,6 +591,7 @@ class Canon:
         self.varnames = {}
         self.keep = set()
         self.never = set()
+        self.avail = {}     # dump(access path) -> materialised temporary holding it, valid up to the next barrier
         self.compnames = {}
         self.out_counter = 0
 
@@ -819,7 +823,20 @@ class Canon:
     def sub(self, node):
         if node is None:
             return None
-        return _Subst(self).visit(copy.deepcopy(node))
+        out = _Subst(self).visit(copy.deepcopy(node))
+        if self.avail:
+            avail = self.avail
+
+            class Reuse(ast.NodeTransformer):
+                def generic_visit(s, n):
+                    if isinstance(n, (ast.Attribute, ast.Subscript)) and isinstance(getattr(n, "ctx", None), ast.Load) \
+                            and _access_path(n):
+                        k = ast.dump(n)
+                        if k in avail:
+                            return ast.Name(id=avail[k][0], ctx=ast.Load())
+                    return ast.NodeTransformer.generic_visit(s, n)
+            out = Reuse().visit(out)
+        return out
 
     # -- uses of one version of a temporary -------------------------------------------------
     @staticmethod
@@ -961,10 +978,15 @@ class Canon:
                     v = f"_t{self.out_counter}"
                     out.append(ast.Assign(targets=[ast.Name(id=v, ctx=ast.Store())], value=val))
                     self.env[name] = ast.Name(id=v, ctx=ast.Load())
+                    if _access_path(val) and not isinstance(val, (ast.Name, ast.Constant)):
+                        # the same path written out again (before the next barrier) means the same object
+                        self.avail[ast.dump(val)] = (v, frozenset(self._names_in([val])))
                 continue
             if self._is_free(s):
                 value = self.sub(s.value)
                 self.flush(out, self._stored_in(s))
+                st = self._stored_in(s)
+                self.avail = {k: e for k, e in self.avail.items() if not (e[1] & st)}
                 for n in self._level_stores(s):
                     self.env.pop(n, None)         # a version that was a temporary ends here
                 out.append(ast.Assign(targets=[self.store_target(t) for t in s.targets], value=value))
@@ -982,6 +1004,12 @@ class Canon:
         return self.sub(t)
 
     def barrier(self, s, live_after):
+        try:
+            return self._barrier(s, live_after)
+        finally:
+            self.avail = {}
+
+    def _barrier(self, s, live_after):
         out = []
         simple = (ast.Expr, ast.Return, ast.Raise, ast.Assert, ast.AugAssign, ast.Assign, ast.Delete)
         if isinstance(s, simple):
@@ -1000,6 +1028,7 @@ class Canon:
         if isinstance(s, ast.If):
             test = self.sub(s.test)
             self.flush(out, self._stored_in(s))
+            self.avail = {}
             env0 = dict(self.env)
             body = self.block(s.body, live_after)
             self.env = dict(env0)
@@ -1010,6 +1039,7 @@ class Canon:
         if isinstance(s, ast.For):
             it = self.sub(s.iter)
             self.flush(out, self._stored_in(s))
+            self.avail = {}
             env0 = dict(self.env)
             target = self.store_target(s.target)
             body = self.block(s.body, live_after)
@@ -1019,6 +1049,7 @@ class Canon:
             out.append(ast.For(target=target, iter=it, body=body, orelse=orelse))
             return out
         if isinstance(s, ast.While):
+            self.avail = {}
             self.flush(out, self._stored_in(s))
             env0 = dict(self.env)
             test = self.sub(s.test)
@@ -1032,6 +1063,7 @@ class Canon:
             items = [ast.withitem(context_expr=self.sub(it.context_expr),
                                   optional_vars=None if it.optional_vars is None else self.store_target(it.optional_vars))
                      for it in s.items]
+            self.avail = {}
             self.flush(out, self._stored_in(s))
             env0 = dict(self.env)
             body = self.block(s.body, live_after)
@@ -1042,6 +1074,7 @@ class Canon:
             out.append(copy.deepcopy(s))
             return out
         if isinstance(s, ast.Try):
+            self.avail = {}
             self.flush(out, self._stored_in(s))
             env0 = dict(self.env)
             body = self.block(s.body, live_after)
@@ -1085,6 +1118,11 @@ class Canon:
             body = [Ren().visit(x) for x in _strip_doc(new.body)] or [ast.Pass()]
             new.body = body
             new.name = self.var_name(s.name)
+            # decorators, base classes and class keywords are evaluated in the enclosing scope, at definition time
+            new.decorator_list = [self.sub(d) for d in s.decorator_list]
+            if isinstance(new, ast.ClassDef):
+                new.bases = [self.sub(b) for b in s.bases]
+                new.keywords = [ast.keyword(arg=k.arg, value=self.sub(k.value)) for k in s.keywords]
             if isinstance(new, ast.FunctionDef):
                 new.returns = None
                 for a in ast.walk(new.args):
